@@ -8,6 +8,7 @@ C19 driver: replays a harness trace.
 -/
 import LndModel.Prelude.Lines
 import LndModel.C19.Model
+import LndModel.C19.Search
 
 open LndModel LndModel.Lines LndModel.C19
 
@@ -33,6 +34,126 @@ structure Stored where
   samt : Option Nat
   scltv : Option Nat
 
+/-- one `processEdge` call of the real search that reached the probability source. -/
+structure Ev where
+  frm : Nat
+  to : Nat
+  amt : Nat
+  pbits : Nat
+
+structure SearchInfo where
+  penBits : Nat
+  minBits : Nat
+  lastPay : Nat
+  maxPay : Nat
+  nrelax : Nat
+
+/-! ### The search replayed with IEEE doubles -/
+
+def maxInt64 : Int := 9223372036854775807
+
+/-- `getProbabilityBasedDist`. -/
+def goDist (pen : Float) (w : Int) (p : Float) : Int :=
+  if p == 0 then maxInt64 else
+  let d := Float.ofInt w + pen / p
+  if d > 9000000000000000000 then maxInt64 else d.toInt64.toInt
+
+def floatAlg (pen minp : Float) : ProbAlg :=
+  { P := Float, le := fun p q => decide (p ≤ q), mul := fun p q => p * q, one := 1.0,
+    dist := goDist pen, valid := fun p => decide (0 < p) && decide (p ≤ 1),
+    minOk := fun p => !decide (p < minp) }
+
+/-- would the real loop call the probability source for `u → pivot`? -/
+def wouldCall (g : Graph) (r : Req) (s : SState Float) (u : Nat) : Option (UEdge × Nat) :=
+  match relaxEdge g r s u with
+  | none => none
+  | some e => if reachesProb r e s.pv.ent then some (e, sendAmt e s.pv.ent) else none
+
+def silentPivot (g : Graph) (r : Req) (n : Nat) (s : SState Float) : Bool :=
+  (List.range (n + 1)).all fun u => (wouldCall g r s u).isNone
+
+structure Replay where
+  s : SState Float
+  pops : Nat := 0
+  relaxes : Nat := 0
+  silent : Nat := 0
+  stores : Nat := 0
+
+/-- Replays the real search: the model pops / relaxes exactly as the trace says
+    and checks, step by step, that the trace is a run of the model: every
+    relaxation the implementation made is one the model makes (same edge
+    amount), every relaxation the model expects from a pivot was made, every
+    node the implementation expanded was a heap minimum of the model (nodes
+    without callbacks are popped silently when they are minimal). -/
+def replaySearchLoop (A : ProbAlg) (hP : A.P = Float) (g : Graph) (r : Req) (c : SCfg) (n : Nat)
+    (evs : List Ev) : Except String Replay := do
+  let cast (p : Float) : A.P := hP ▸ p
+  let toF (s : SState A.P) : SState Float := hP ▸ s
+  let mut s : SState A.P := SState.init A.one r c
+  let mut seen : List Nat := []
+  let mut pops := 0
+  let mut relaxes := 0
+  let mut silent := 0
+  let mut stores := 0
+  let complete (s : SState A.P) (seen : List Nat) : Except String Unit := do
+    for u in List.range (n + 1) do
+      if !seen.contains u then
+        match wouldCall g r (toF s) u with
+        | some (e, a) =>
+          throw s!"pivot {s.pv.node}: model relaxes {u}->{s.pv.node} over chan {e.chan} amt {a}, impl did not"
+        | none => pure ()
+  for ev in evs do
+    if ev.to != s.pv.node then
+      complete s seen
+      seen := []
+      -- advance the pivot to `ev.to`
+      let mut found := false
+      for _ in List.range (n + 3) do
+        if !found then
+          let mins := s.opn.filter (isMin A s)
+          if mins.contains ev.to then
+            s := popStep r s ev.to
+            pops := pops + 1
+            found := true
+          else
+            match mins.find? (fun m => m != r.source && silentPivot g r n (toF (popStep r s m))) with
+            | some m =>
+              s := popStep r s m
+              pops := pops + 1
+              silent := silent + 1
+            | none => throw s!"pop order: impl expanded {ev.to}, model heap minima {mins} of {s.opn}"
+      if !found then throw s!"pop order: impl expanded {ev.to}, not reachable"
+      if s.done then throw s!"impl expanded the source {ev.to}"
+    if seen.contains ev.frm then throw s!"pivot {ev.to}: {ev.frm} relaxed twice"
+    match wouldCall g r (toF s) ev.frm with
+    | none => throw s!"impl relaxed {ev.frm}->{ev.to} amt {ev.amt}, model does not reach the probability source"
+    | some (_, a) =>
+      if a != ev.amt then throw s!"relax {ev.frm}->{ev.to}: amount model={a} impl={ev.amt}"
+    let ep := Float.ofBits ev.pbits.toUInt64
+    if ep != 0 then
+      let before := s.D.length
+      s := relaxStep A g r c s ev.frm (cast ep)
+      if s.D.length != before then stores := stores + 1
+    seen := ev.frm :: seen
+    relaxes := relaxes + 1
+  complete s seen
+  -- drain the heap until the source is popped or it is empty
+  for _ in List.range (n + 3) do
+    if !s.done && !s.opn.isEmpty then
+      let mins := s.opn.filter (isMin A s)
+      if mins.contains r.source then
+        s := popStep r s r.source
+        pops := pops + 1
+      else
+        match mins.find? (fun m => silentPivot g r n (toF (popStep r s m))) with
+        | some m =>
+          s := popStep r s m
+          pops := pops + 1
+          silent := silent + 1
+        | none => throw s!"end of trace: model still expands one of {mins}"
+  if !s.done && !s.opn.isEmpty then throw "end of trace: model heap not drained"
+  return { s := toF s, pops := pops, relaxes := relaxes, silent := silent, stores := stores }
+
 structure St where
   caseId : String := "0"
   hdr : String := ""
@@ -51,6 +172,9 @@ structure St where
   probOk : Bool := true
   relaxDup : Bool := false
   badParse : Bool := false
+  srch : Option SearchInfo := none
+  evs : List Ev := []
+  probBits : Option Nat := none
   -- counters
   lines : Nat := 0
   cases : Nat := 0
@@ -91,6 +215,14 @@ structure St where
   metaLen : Nat := 0
   probMode : Int := 0
   samples : Nat := 0
+  srchReplays : Nat := 0
+  srchRelax : Nat := 0
+  srchStores : Nat := 0
+  srchPops : Nat := 0
+  srchSilent : Nat := 0
+  srchWrapped : Nat := 0
+  srchNoPath : Nat := 0
+  srchMulti : Nat := 0
 
 def mismatch (s : St) (detail : String) : IO St := do
   IO.println s!"MISMATCH case={s.caseId} line={s.lines} {detail}"
@@ -225,6 +357,49 @@ def endCase (s : St) : IO St := do
         if s.find != "ok" then
           s ← mismatch s s!"direct channel {e.chan} is admissible but impl={s.find}"
     | none => pure ()
+  -- (X) the whole search: the real sequence of relaxations is a run of the model's main
+  -- loop, and the model's final distance map yields the returned path / no path
+  if pre.isNone && exact && (s.find == "ok" || s.find == "nopath") then
+    match s.srch with
+    | none => s ← mismatch s "no search trace for an in-memory case"
+    | some si =>
+      if si.nrelax != s.evs.length then
+        s ← mismatch s s!"search trace: {s.evs.length} relax lines, header says {si.nrelax}"
+      let A := floatAlg (Float.ofBits si.penBits.toUInt64) (Float.ofBits si.minBits.toUInt64)
+      let n := (g.foldl (fun m c => max m (max c.n1 c.n2)) (max r.source r.target))
+      match replaySearchLoop A rfl g r ⟨si.lastPay, si.maxPay⟩ n s.evs with
+      | .error msg => s ← mismatch s s!"search loop replay: {msg}"
+      | .ok rp =>
+        s := { s with srchReplays := s.srchReplays + 1, srchRelax := s.srchRelax + rp.relaxes,
+                      srchStores := s.srchStores + rp.stores,
+                      srchPops := s.srchPops + rp.pops, srchSilent := s.srchSilent + rp.silent }
+        if rp.s.wrapped then s := { s with srchWrapped := s.srchWrapped + 1 }
+        if rp.pops ≥ 3 then s := { s with srchMulti := s.srchMulti + 1 }
+        let fin := rp.s
+        match getD fin.D r.source with
+        | none =>
+          if s.find == "ok" then
+            s ← mismatch s "search loop replay: model has no entry for the source, impl returned a path"
+          else s := { s with srchNoPath := s.srchNoPath + 1 }
+        | some x =>
+          if s.find != "ok" then
+            s ← mismatch s s!"search loop replay: model reaches the source (amount {x.ent.recv}), impl={s.find}"
+          else
+            match walk fin.D r.target (fin.D.length + 1) r.source with
+            | none => s ← mismatch s "search loop replay: model reconstruction does not reach the target"
+            | some E =>
+              if !(s.via == "route" && s.edges.isEmpty) && E != s.edges then
+                s ← mismatch s s!"search loop replay: model path chans={E.map (·.chan)} impl chans={s.edges.map (·.chan)} (or edge fields differ)"
+              if s.routeOk then
+                if x.ent.recv != s.rh.totalAmt then
+                  s ← mismatch s s!"search loop replay: amount stored for the source model={x.ent.recv} route total={s.rh.totalAmt}"
+                if x.ent.cltv != (s.rh.totalTL : Int) then
+                  s ← mismatch s s!"search loop replay: cltv stored for the source model={x.ent.cltv} route total={s.rh.totalTL}"
+              match s.probBits with
+              | some pb =>
+                if x.prob.toBits.toNat != pb then
+                  s ← mismatch s s!"search loop replay: probability of the source model={x.prob} impl bits={pb}"
+              | none => s ← mismatch s "find line without probbits"
   match s.find with
   | "nopath" => return { s with nopath := s.nopath + 1 }
   | "insufficient" => return { s with insufficient := s.insufficient + 1 }
@@ -369,6 +544,7 @@ def step (s : St) (line : String) : IO St := do
                     find := "",
                     edges := [], routeOk := false, rh := {}, hops := [], hopFees := [],
                     stored := [], probOk := true, relaxDup := false, usesHint := false,
+                    srch := none, evs := [], probBits := none,
                     metaLen := nat "meta", probMode := (kvInt? rest "prob").getD 0,
                     badParse := bad, cases := s.cases + 1 }
   | "chan" :: id :: a :: b :: rest =>
@@ -391,7 +567,17 @@ def step (s : St) (line : String) : IO St := do
     | _, _ => return { s with badParse := true }
   | "find" :: _ =>
     return { s with find := resOf ws, probOk := kvNat? ws "probok" != some 0,
-                    relaxDup := kvNat? ws "relaxdup" == some 1 }
+                    relaxDup := kvNat? ws "relaxdup" == some 1,
+                    probBits := kvNat? ws "probbits" }
+  | "search" :: rest =>
+    match kvNat? rest "penbits", kvNat? rest "minbits", kvNat? rest "lastpay", kvNat? rest "maxpay",
+          kvNat? rest "nrelax" with
+    | some a, some b, some c, some d, some e => return { s with srch := some ⟨a, b, c, d, e⟩ }
+    | _, _, _, _, _ => return { s with badParse := true }
+  | ["relax", f, t, a, pb] =>
+    match nat? f, nat? t, nat? a, nat? pb with
+    | some f, some t, some a, some pb => return { s with evs := s.evs ++ [⟨f, t, a, pb⟩] }
+    | _, _, _, _ => return { s with badParse := true }
   | "stored" :: i :: rest =>
     match nat? i, kvNat? rest "cnt", kvNat? rest "amt" with
     | some i, some cnt, some amt =>
@@ -464,5 +650,13 @@ def main : IO Unit := do
   IO.println s!"STAT routes_with_distinct_edge_probabilities={s.distinctProb}"
   IO.println s!"STAT stored_entry_amount_checks={s.storedChecked}"
   IO.println s!"STAT stored_entry_cltv_checks={s.storedCltvChecked}"
+  IO.println s!"STAT search_loop_replays={s.srchReplays}"
+  IO.println s!"STAT search_loop_relaxations={s.srchRelax}"
+  IO.println s!"STAT search_loop_entries_stored={s.srchStores}"
+  IO.println s!"STAT search_loop_pops={s.srchPops}"
+  IO.println s!"STAT search_loop_silent_pops={s.srchSilent}"
+  IO.println s!"STAT search_loop_three_or_more_pops={s.srchMulti}"
+  IO.println s!"STAT search_loop_nopath_confirmed={s.srchNoPath}"
+  IO.println s!"STAT search_loop_weight_wrapped={s.srchWrapped}"
   IO.println s!"STAT mismatches={s.mismatches}"
   IO.println s!"STAT monitor_failures={s.monitorFails}"
